@@ -85,3 +85,15 @@ func CSVWithCRLF(w io.Writer) *csv.Writer {
 	cw.UseCRLF = true
 	return cw
 }
+
+// WrapLoop violates R2.8 WRAP-LOOP: an inclusive bound on an unsigned counter.
+func WrapLoop(start, end uint32, m map[uint32]bool) {
+	for code := start; code <= end; code++ {
+		m[code] = true
+	}
+}
+
+// NarrowAverage violates R5.6 NARROW-SUM.
+func NarrowAverage(left, up byte) byte {
+	return (left + up) / 2
+}
